@@ -83,6 +83,29 @@ def run(ck: vlib.Check):
                                  {"kind": "roundtrip-file", "label": label, "input_hex": b.hex() if len(b) < 200000 else None,
                                   "result": describe(r)}, True)
                     break
+                # ... and the writing half: encode_chk_to_file onto a new path, and (with force_create) over an existing file
+                # that is LONGER, shorter, and empty; whatever was there, the file then holds exactly the encoding
+                bad = None
+                for prior in (None, b + bytes(range(256)) * 20, b[: len(b) // 2], b""):
+                    out = Path(td) / "out.chk"
+                    if out.exists():
+                        out.unlink()
+                    if prior is not None:
+                        out.write_bytes(prior)
+                    w = vlib.impl_result(lambda: ChkIo().encode_chk_to_file(ChkIo().decode_chk_file(str(pth)), str(out),
+                                                                            force_create=prior is not None) and 0)
+                    ck.evaluations += 1
+                    got = out.read_bytes() if out.exists() else None
+                    if w[0] != 1 or got != b:
+                        bad = {"prior": "absent" if prior is None else f"{len(prior)} bytes", "result": str(w),
+                               "file_len": None if got is None else len(got), "expected_len": len(b)}
+                        break
+                if bad:
+                    ck.violation(f"decode_chk_file -> encode_chk_to_file does not leave the file's bytes ({label}; destination "
+                                 f"before the call: {bad['prior']}; {bad['file_len']} bytes after, expected {bad['expected_len']})",
+                                 {"kind": "roundtrip-file-write", "label": label,
+                                  "input_hex": b.hex() if len(b) < 200000 else None, **bad}, True)
+                    break
     # one ChkIo object for a whole session, with FAILING calls in between (a decode of garbage; an encode that raises
     # after some sections were already written): every later call must answer as a fresh object does
     sess = session_results([b for _, b, _ in cases[:len(impl_rt)]])
@@ -184,6 +207,18 @@ def replay(path: str) -> int:
         bad = session_results([b]) != [S.impl_roundtrip(b)]
         print("still differs from a fresh object" if bad else "no longer differs")
         return 1 if bad else 0
+    if rp.get("kind") == "roundtrip-file-write" and rp.get("input_hex"):
+        import tempfile
+        from richchk.io.chk.chk_io import ChkIo
+        b = bytes.fromhex(rp["input_hex"])
+        with tempfile.TemporaryDirectory(dir=str(vlib.BUILD)) as td:
+            src, out = Path(td) / "in.chk", Path(td) / "out.chk"
+            src.write_bytes(b)
+            out.write_bytes(b + bytes(range(256)) * 20)
+            ChkIo().encode_chk_to_file(ChkIo().decode_chk_file(str(src)), str(out), force_create=True)
+            ok, n = out.read_bytes() == b, out.stat().st_size
+        print("written over a longer file:", "exactly the encoding" if ok else f"{n} bytes, expected {len(b)}")
+        return 0 if ok else 1
     if "input_hex" in rp:
         b = bytes.fromhex(rp["input_hex"])
         r = S.impl_roundtrip(b)
